@@ -17,7 +17,13 @@ package main
 // (wf.dependencies, dependencySetter, the static value map, validateStaticValues = typing) are skipped and
 // listed.  Anything else: "source shape not recognised" (translator tie unavailable).
 //
-// Output: coq/Gen/C20Workflow.v.  Proofs/GenAgreeC20Wf.v proves closure_of = run_input and compile = w_compile.
+//   - the declaring calls: initNode (a fresh WorkflowNode replaces whatever was registered under the key), End (the
+//     registered END node, created on first use), the eleven Add<Component>Node methods (the graph's error is
+//     dropped, the WorkflowNode is created all the same), AddBranch (recorded only), AddEnd (= End().AddInput),
+//     addDependencyRelation (the closure is appended to n.addInputs), SetStaticValue (recorded under its path).
+//
+// Output: coq/Gen/C20Workflow.v.  Proofs/GenAgreeC20Wf.v proves closure_of = run_input, compile = w_compile and
+// the declaring calls = wstep.
 
 import (
 	"fmt"
@@ -42,7 +48,14 @@ func init() {
 		"Definition options_AddDependency : bool * bool := (false, true).\n"+
 		"Definition options_WithNoDirectDependency : bool * bool := (true, false).\n"+
 		"Definition compile (closure : gstate -> string -> mapped -> winput -> gstate * mapped * option ecls) (w : wstate) (opt : copt) (ord sord : list string) : wstate * outcome :=\n"+
-		"  w_compile fixed w opt ord sord.\n")
+		"  w_compile fixed w opt ord sord.\n"+
+		"Definition initNode (key : string) (w : wstate) : wstate := w.\n"+
+		"Definition front_End (w : wstate) : wstate := w.\n"+
+		"Definition front_AddNode (w : wstate) (key : string) (nk : nkind) (needState : bool) : wstate := w.\n"+
+		"Definition front_AddBranch (w : wstate) (fromNodeKey : string) (endNodes : list string) : wstate := w.\n"+
+		"Definition front_addDependencyRelation (key : string) (w : wstate) (fromNodeKey : string) (inputs : list string) (options : bool * bool) : wstate := w.\n"+
+		"Definition front_AddEnd (w : wstate) (fromNodeKey : string) (inputs : list string) : wstate := w.\n"+
+		"Definition front_SetStaticValue (key : string) (w : wstate) (path : string) : wstate := w.\n")
 }
 
 type c20Wf struct {
@@ -375,6 +388,12 @@ func (t *c20Wf) closures(f *ast.File, b *strings.Builder) error {
 	return nil
 }
 
+// return <expr>
+func c20RetIs(s ast.Stmt, what string) bool {
+	ret, ok := s.(*ast.ReturnStmt)
+	return ok && len(ret.Results) == 1 && c20Txt(ret.Results[0]) == what
+}
+
 // return nil, <second>
 func c20RetNilAnd(s ast.Stmt, second string) bool {
 	ret, ok := s.(*ast.ReturnStmt)
@@ -703,6 +722,142 @@ func (t *c20Wf) compile(f *ast.File, b *strings.Builder) error {
 	return nil
 }
 
+// the calls that only declare: Add<Component>Node, End, AddBranch, AddEnd, SetStaticValue, initNode
+func (t *c20Wf) front(f *ast.File, b *strings.Builder) error {
+	body := func(recv, name string, n int) ([]ast.Stmt, error) {
+		fn := c20WfMethod(f, recv, name)
+		if fn == nil || len(fn.Body.List) != n {
+			return nil, c20WfErr("%s.%s: not found with %d statements", recv, name, n)
+		}
+		return fn.Body.List, nil
+	}
+	// initNode
+	l, err := body("Workflow", "initNode", 3)
+	if err != nil {
+		return err
+	}
+	as, ok := l[0].(*ast.AssignStmt)
+	if !ok || as.Tok != token.DEFINE || c20Txt(as.Lhs[0]) != "n" {
+		return c20WfErr("initNode: first statement")
+	}
+	cl := c20AddrLit(as.Rhs[0], "WorkflowNode")
+	if cl == nil {
+		return c20WfErr("initNode: the node literal")
+	}
+	kv := c20KeyValues(cl)
+	if c20Txt(kv["key"]) != "key" || c20Txt(kv["g"]) != "wf.g" || !strings.HasPrefix(c20Txt(kv["staticValues"]), "make(map[string]any") ||
+		!strings.HasPrefix(c20Txt(kv["mappedFieldPath"]), "make(map[string]any") || kv["addInputs"] != nil || len(kv) != len(cl.Elts) {
+		return c20WfErr("initNode: the fields of a fresh WorkflowNode")
+	}
+	if c20Txt(l[1]) != "wf.workflowNodes[key]=n" || c20Txt(l[2].(*ast.ReturnStmt).Results[0]) != "n" {
+		return c20WfErr("initNode: registration of the node")
+	}
+	b.WriteString("\n(* initNode: a fresh WorkflowNode is registered under the key *)\n")
+	b.WriteString("Definition initNode (key : string) (w : wstate) : wstate := wn_put key (mkWN [] MNone []) w.\n")
+	// End
+	endFn := c20WfMethod(f, "Workflow", "End")
+	if endFn == nil {
+		return c20WfErr("Workflow.End not found")
+	}
+	l = endFn.Body.List
+	if r, ok := l[len(l)-1].(*ast.ReturnStmt); !ok || len(r.Results) != 1 || c20Txt(r.Results[0]) != "wf.initNode(END)" {
+		return c20WfErr("End: creation of the END node")
+	}
+	switch len(l) {
+	case 1:
+		// the registered END node is not looked up: a fresh one every time
+		b.WriteString("Definition front_End (w : wstate) : wstate := initNode END_ w.\n")
+	case 2:
+		is, ok := l[0].(*ast.IfStmt)
+		if !ok || is.Init == nil || c20Txt(is.Init) != "node,ok:=wf.workflowNodes[END]" || c20Txt(is.Cond) != "ok" || is.Else != nil ||
+			len(is.Body.List) != 1 || !c20RetIs(is.Body.List[0], "node") {
+			return c20WfErr("End: lookup of the registered END node")
+		}
+		b.WriteString("Definition front_End (w : wstate) : wstate := if wn_has END_ w then w else initNode END_ w.\n")
+	default:
+		return c20WfErr("End: %d statements", len(l))
+	}
+	// Add<Component>Node
+	n := 0
+	for _, d := range f.Decls {
+		fn, ok := d.(*ast.FuncDecl)
+		if !ok || fn.Recv == nil || fn.Body == nil || !strings.HasPrefix(fn.Name.Name, "Add") || !strings.HasSuffix(fn.Name.Name, "Node") {
+			continue
+		}
+		if c20WfMethod(f, "Workflow", fn.Name.Name) != fn {
+			continue
+		}
+		if len(fn.Body.List) != 2 {
+			return c20WfErr("%s: %d statements", fn.Name.Name, len(fn.Body.List))
+		}
+		as, ok := fn.Body.List[0].(*ast.AssignStmt)
+		if !ok || as.Tok != token.ASSIGN || len(as.Lhs) != 1 || c20Txt(as.Lhs[0]) != "_" {
+			return c20WfErr("%s: the graph's error is not dropped", fn.Name.Name)
+		}
+		call, ok := as.Rhs[0].(*ast.CallExpr)
+		if !ok || c20Txt(call.Fun) != "wf.g."+fn.Name.Name || len(call.Args) < 2 || c20Txt(call.Args[0]) != "key" || !call.Ellipsis.IsValid() {
+			return c20WfErr("%s: does not hand the node to the graph under its key", fn.Name.Name)
+		}
+		if r, ok := fn.Body.List[1].(*ast.ReturnStmt); !ok || len(r.Results) != 1 || c20Txt(r.Results[0]) != "wf.initNode(key)" {
+			return c20WfErr("%s: does not create the WorkflowNode", fn.Name.Name)
+		}
+		n++
+	}
+	if n < 2 {
+		return c20WfErr("Add<Component>Node methods not found")
+	}
+	fmt.Fprintf(b, "(* the %d Add<Component>Node methods: _ = wf.g.Add<Component>Node(key, …); return wf.initNode(key) *)\n", n)
+	b.WriteString("Definition front_AddNode (w : wstate) (key : string) (nk : nkind) (needState : bool) : wstate :=\n  let w := w_graph_addNode key nk needState w in\n  initNode key w.\n")
+	// AddBranch
+	if l, err = body("Workflow", "AddBranch", 3); err != nil {
+		return err
+	}
+	as, ok = l[0].(*ast.AssignStmt)
+	if !ok || as.Tok != token.DEFINE || c20Txt(as.Lhs[0]) != "wb" {
+		return c20WfErr("AddBranch: first statement")
+	}
+	wbl := c20AddrLit(as.Rhs[0], "WorkflowBranch")
+	if wbl == nil || c20Txt(c20KeyValues(wbl)["fromNodeKey"]) != "fromNodeKey" || c20Txt(c20KeyValues(wbl)["GraphBranch"]) != "branch" {
+		return c20WfErr("AddBranch: the WorkflowBranch literal")
+	}
+	if c20Txt(l[1]) != "wf.workflowBranches=append(wf.workflowBranches,wb)" {
+		return c20WfErr("AddBranch: the branch is not recorded at the end of wf.workflowBranches")
+	}
+	b.WriteString("Definition front_AddBranch (w : wstate) (fromNodeKey : string) (endNodes : list string) : wstate :=\n  w_branches_append fromNodeKey endNodes w.\n")
+	// addDependencyRelation: every arm appends its closure (checked by closures())
+	b.WriteString("(* addDependencyRelation: n.addInputs = append(n.addInputs, <the closure of the options>) *)\n")
+	b.WriteString("Definition front_addDependencyRelation (key : string) (w : wstate) (fromNodeKey : string) (inputs : list string) (options : bool * bool) : wstate :=\n" +
+		"  inputs_append key (mkWI fromNodeKey (kind_of_options options) inputs) w.\n")
+	// AddEnd: wf.End().AddInput(fromNodeKey, inputs...); return wf
+	if l, err = body("Workflow", "AddEnd", 2); err != nil {
+		return err
+	}
+	es, ok := l[0].(*ast.ExprStmt)
+	var endOpts, endInputs string
+	if ok {
+		switch c20Txt(es.X) {
+		case "wf.End().AddInput(fromNodeKey,inputs...)":
+			endOpts, endInputs = "options_AddInput", "inputs"
+		case "wf.End().AddDependency(fromNodeKey)":
+			endOpts, endInputs = "options_AddDependency", "[]"
+		}
+	}
+	if endOpts == "" {
+		return c20WfErr("AddEnd is not a declaration on End()")
+	}
+	b.WriteString("Definition front_AddEnd (w : wstate) (fromNodeKey : string) (inputs : list string) : wstate :=\n  let w := front_End w in\n" +
+		"  front_addDependencyRelation END_ w fromNodeKey " + endInputs + " " + endOpts + ".\n")
+	// SetStaticValue: n.staticValues[path.join()] = value; return n
+	if l, err = body("WorkflowNode", "SetStaticValue", 2); err != nil {
+		return err
+	}
+	if c20Txt(l[0]) != "n.staticValues[path.join()]=value" {
+		return c20WfErr("SetStaticValue: the value is not recorded under its path")
+	}
+	b.WriteString("Definition front_SetStaticValue (key : string) (w : wstate) (path : string) : wstate :=\n  statics_put key path w.\n")
+	return nil
+}
+
 func c20ExtractWorkflow(repo string) (string, string, error) {
 	fset := token.NewFileSet()
 	f, err := c20ParseGo(fset, repo, "compose", "workflow.go")
@@ -737,6 +892,9 @@ func c20ExtractWorkflow(repo string) (string, string, error) {
 		return "", "", err
 	}
 	if err := t.compile(f, &body); err != nil {
+		return "", "", err
+	}
+	if err := t.front(f, &body); err != nil {
 		return "", "", err
 	}
 	var b strings.Builder
